@@ -37,6 +37,10 @@ EXTERN = [
     (r"^<tokio::io::util::", "total", "futures returning io::Result"),
     (r"^tokio::|^<tokio::", "total", "runtime API: errors are returned; panics only outside a runtime context (configuration error, not input)"),
     (r"^futures_core::|^<futures_core::|^futures_util::|^<futures_util::", "total", "stream/future combinators"),
+    (r"^async_std::io::(read::ReadExt|write::WriteExt)::|^<async_std::io::", "total", "construct futures; errors are io::Result"),
+    (r"^async_std::|^<async_std::|^smol::|^<smol::|^async_io::|^<async_io::|^async_net::|^<async_net::|^async_executor::|^futures_lite::|^<futures_lite::", "total", "runtime API: errors are returned"),
+    (r"^futures_util::io::(AsyncReadExt|AsyncWriteExt)::|^<futures_util::io::|^futures_io::", "total", "construct futures; errors are io::Result"),
+    (r"^glommio::|^<glommio::|^nio::|^<nio::", "total", "runtime API: errors are returned"),
     (r"^mews::|^<mews::", "total", "websocket crate: not on the analysed paths of the claimed clauses"),
     (r"^ctrlc::", "total", "signal handler registration returns Result"),
 ]
